@@ -79,11 +79,10 @@ func (m *Manager) Clear(rw http.ResponseWriter, req *http.Request) error {
 			options: m.Options,
 		}
 		tckt.clearCookie(rw, req)
-		// Don't raise an error if we didn't have a Cookie
-		if err == http.ErrNoCookie {
-			return nil
-		}
-		return fmt.Errorf("error decoding ticket to clear session: %v", err)
+		// The cookie has been cleared. Without a valid ticket there is no
+		// session in the store that could be removed, so there is nothing
+		// left to do (and nothing the caller could act on).
+		return nil
 	}
 
 	tckt.clearCookie(rw, req)
